@@ -548,6 +548,27 @@ where
     })
 }
 
+#[cfg(feature = "verif")]
+pub mod verif {
+    use super::{BlockPatternEntry, Entry};
+
+    pub fn mcbpc_i_table() -> &'static [Entry<BlockPatternEntry>] {
+        &super::MCBPC_I_TABLE
+    }
+
+    pub fn mcbpc_p_table() -> &'static [Entry<BlockPatternEntry>] {
+        &super::MCBPC_P_TABLE
+    }
+
+    pub fn cbpy_table() -> &'static [Entry<Option<[bool; 4]>>] {
+        &super::CBPY_TABLE_INTRA
+    }
+
+    pub fn mvd_table() -> &'static [Entry<Option<f32>>] {
+        &super::MVD_TABLE
+    }
+}
+
 #[cfg(test)]
 mod tests {
     use crate::parser::macroblock::{
